@@ -192,11 +192,12 @@ class Filenames(object):
                 result = string.Template(item).substitute(currentns)
                 if 'num' in currentns:
                     num += 1
-                self.variables.clear()
-                self.variables.update(g)
                 result = self.addExtension(result)
                 if result not in self.invalid:
                     self.invalid[result] = None
+                    # The request is served: back to the initial namespace
+                    self.variables.clear()
+                    self.variables.update(g)
                     yield result
             except KeyError:
                 continue
@@ -234,11 +235,12 @@ class Filenames(object):
                     result = string.Template(item).substitute(currentns)
                     if 'num' in currentns:
                         num += 1
-                    self.variables.clear()
-                    self.variables.update(g)
                     result = self.addExtension(result)
                     if result not in self.invalid:
                         self.invalid[result] = None
+                        # The request is served: back to the initial namespace
+                        self.variables.clear()
+                        self.variables.update(g)
                         yield result
                     else:
                         continue
